@@ -1,6 +1,7 @@
 """C08  Volume operations never move a voxel in physical space.
 
-Tie T: T9a T9b T9c (per-axis bodies of pad_to / crop_to / pad_or_crop_to_spatial_shape), T10a T10b T10c
+Tie T: T9a T9b T9c (per-axis bodies of pad_to / crop_to / pad_or_crop_to_spatial_shape), T9d (per-channel decision of
+Volume.pad), T10a T10b T10c T10d
 (size / emptiness arithmetic and the two bound checks of `_prepare_getitem_index`).
 Tie C: random histories (length 1..12) on real `Volume` and `VolumeGeometry` objects against the
 executable model `Model/Volume.lean` (driver `Drivers/C08.lean`): L0 = (shape, affine as exact rationals,
@@ -26,7 +27,7 @@ from fractions import Fraction
 import numpy as np
 
 PROP = 'C08'
-TARGETS = ['T9a', 'T9b', 'T9c', 'T10a', 'T10b', 'T10c', 'T10d']
+TARGETS = ['T9a', 'T9b', 'T9c', 'T9d', 'T10a', 'T10b', 'T10c', 'T10d']
 LEAN_MODULES = ['HdVerif.Props.C08']
 MODEL_MODULES = ['HdVerif.Model.Volume']
 NAMESPACE = 'HdVerif.C08'
